@@ -677,7 +677,7 @@ theorem stepCore_sound_datum (o : Oracle) (p : Prog) (inp : Input) (op : Opcode)
             rcases hk with hk | hk
             · have hty := mtyp_ty hs hd hk
               cases val <;> simp [DVal.ty] at hty
-              simp only [hd]
+              simp only [isBucketsPtr, hd]
               refine writeDatum_ok hs hr hk ?_ (fun t' st' d d' rest' h1 h2 h3 h4 _ _ => hfin t' st' rest' h1 h2 h3 h4)
               intro d hty
               obtain ⟨val, tm⟩ := d
@@ -685,7 +685,7 @@ theorem stepCore_sound_datum (o : Oracle) (p : Prog) (inp : Input) (op : Opcode)
               exact ⟨_, rfl, rfl⟩
             · have hty := mtyp_ty hs hd hk
               cases val <;> simp [DVal.ty] at hty
-              simp only [hd, if_true]
+              simp only [isBucketsPtr, hd, if_true]
               split
               · refine writeDatum_ok hs hr hk ?_ (fun t' st' d d' rest' h1 h2 h3 h4 _ _ => hfin t' st' rest' h1 h2 h3 h4)
                 intro d hty
